@@ -95,7 +95,7 @@ func (am *YAMLAccountManager) Create(account hotline.Account) error {
 		return fmt.Errorf("create account file: %w", os.ErrExist)
 	}
 
-	b, err := yaml.Marshal(account)
+	b, err := marshalYAML(account)
 	if err != nil {
 		return fmt.Errorf("marshal account to YAML: %v", err)
 	}
@@ -137,7 +137,7 @@ func (am *YAMLAccountManager) Update(account hotline.Account, newLogin string) e
 		delete(am.accounts, oldLogin)
 	}
 
-	out, err := yaml.Marshal(&account)
+	out, err := marshalYAML(&account)
 	if err != nil {
 		return err
 	}
